@@ -12,6 +12,7 @@
 #include <iostream>
 #include <memory>
 #include <mutex>
+#include <regex>
 #include <sstream>
 #include <string>
 #include <thread>
@@ -180,4 +181,13 @@ struct bulk_writer
 // R14.4: static state written on a parse-like path
 static int call_counter = 0;
 inline void counts_calls() { ++call_counter; }
+
+// R04.12: a backtracking matcher over caller-supplied text / over a developer-supplied member; a function calling itself
+inline bool matches_token(const std::string& token) { return std::regex_match(token, std::regex("-+[a-z]*")); }
+struct pattern_holder
+{
+    std::string pattern_;
+    bool has_hole() const { return std::regex_search(pattern_, std::regex("\\{\\}")); }
+};
+inline std::size_t letters(const char* p) { return *p ? 1 + letters(p + 1) : 0; }
 } // namespace vfix
